@@ -31,7 +31,7 @@ from segvc.unit import FunctionUnit, LoopSpec
 IT = "anyio/itertools.py"
 FN = "anyio/functools.py"
 SRC = DequeT(OBJ)  # the source iterator: what is still to come
-register_class("GenOut", {"out": ArrT(INT, OBJ), "n": INT, "pos": ArrT(INT, INT), "rank": ArrT(INT, INT), "last": INT, "short": BOOL}, kind="env")
+register_class("GenOut", {"out": ArrT(INT, OBJ), "n": INT, "pos": ArrT(INT, INT), "rank": ArrT(INT, INT), "last": INT, "short": BOOL, "rq": INT}, kind="env")
 OUT = z3.Int("generator_output")
 APP = z3.Function("APP", z3.IntSort(), z3.IntSort(), z3.IntSort())  # the binary callback
 APP1 = z3.Function("APP1", z3.IntSort(), z3.IntSort())  # a unary callback (starmap on the element)
@@ -54,17 +54,58 @@ def out_n(h):
     return h.f("GenOut", "n", OUT)
 
 
+def rq(h):
+    """ghost: how many times the run has passed a real checkpoint or asked its source for an element (C08 clauses)"""
+    return h.f("GenOut", "rq", OUT)
+
+
+def _bump_rq(ip):
+    ip.st.put("GenOut", "rq", OUT, ip.st.get("GenOut", "rq", OUT) + 1)
+
+
 def out_at(h, i):
     return z3.Select(h.f("GenOut", "out", OUT), i)
 
 
+CKPT_KINDS = ("checkpoint", "cancel_shielded_checkpoint")
+
+
 class IterUnit(FunctionUnit):
-    props = ("C19",)
+    props = ("C19", "C08")
     trusted = ("E1", "A-pure", "A-private-iterator")
     is_async_source = False
+    c08_clauses = True  # generators / reduce: C08's last sentence (a traversal passes a checkpoint)
+    is_generator = False
 
     def props_of(self, name):
-        return {"C19"}
+        return {"C08"} if ("/c08:" in name or ":c08." in name) else {"C19"}
+
+    # -- C08: counting the real checkpoints of the run (checkpoint(), cancel_shielded_checkpoint(); checkpoint_if_cancelled() alone
+    #    yields only when cancelled and is not counted) and the requests to the source (over a synchronous iterable each one goes
+    #    through _IterableAsyncIterator.__anext__, which passes a suspension point on every path: AdaptorNextUnit) ---------------------
+    def _count_reset(self):
+        self.ckpts, self.requests, self._skip_count, self.ckpts_at_last_yield = 0, 0, False, None
+
+    def run(self, ip):
+        self._count_reset()  # the unit object is reused for every path
+        return super().run(ip)
+
+    def on_for_loop(self, ip, it):
+        if isinstance(it, Sym) and isinstance(it.ty, RefT) and it.ty.cls.startswith("Deque["):  # an abstract source (of elements or of sources)
+            self.requests = getattr(self, "requests", 0) + 1
+
+    def after_exit(self, ip, pre, exc, ret):
+        if not self.c08_clauses or exc is not None:
+            return
+        nm = self.qualname
+        ck, rq_ = getattr(self, "ckpts", 0), getattr(self, "requests", 0)
+        ip.ctx.oblige(f"{nm}/c08:a_full_traversal_over_a_synchronous_iterable_passes_a_checkpoint", z3.Or(z3.BoolVal(ck + rq_ >= 1), rq(H(ip.st)) >= 1) if self.is_generator else z3.BoolVal(ck + rq_ >= 1), "post")
+        nothing = self.yielded_nothing(ip, ret)
+        if nothing is not None:
+            ip.ctx.oblige(f"{nm}/c08:a_traversal_that_yields_nothing_passes_a_checkpoint_of_its_own_whatever_the_source", z3.Implies(nothing, z3.BoolVal(ck >= 1)), "post")
+
+    def yielded_nothing(self, ip, ret):
+        return out_n(H(ip.st)) == 0
 
     def __init__(self):
         super().__init__()
@@ -75,7 +116,7 @@ class IterUnit(FunctionUnit):
             "next": Builtin("next", lambda ip, it: unit.take(ip, it, "StopIteration")),
             "iter": Builtin("iter", lambda ip, it: it),
             "checkpoint": Builtin("checkpoint", lambda ip: AwaitableVal("checkpoint")),
-            "checkpoint_if_cancelled": Builtin("checkpoint_if_cancelled", lambda ip: AwaitableVal("cancel_shielded_checkpoint")),
+            "checkpoint_if_cancelled": Builtin("checkpoint_if_cancelled", lambda ip: (setattr(unit, "_skip_count", True), AwaitableVal("cancel_shielded_checkpoint"))[1]),
             "cancel_shielded_checkpoint": Builtin("cancel_shielded_checkpoint", lambda ip: AwaitableVal("cancel_shielded_checkpoint")),
             "initial_missing": Sym(MISSING, OBJ),
             "AsyncIterable": ClassVal("AsyncIterable"),
@@ -113,6 +154,8 @@ class IterUnit(FunctionUnit):
     def take(self, ip, it, stop):
         st = ip.st
         cn = SRC.cls
+        self.requests = getattr(self, "requests", 0) + 1
+        _bump_rq(ip)
         lo, hi = st.get(cn, "lo", it.t), st.get(cn, "hi", it.t)
         if ip.ctx.branch(lo < hi, "source-has-more"):
             v = z3.Select(st.get(cn, "data", it.t), lo)
@@ -161,6 +204,7 @@ class IterUnit(FunctionUnit):
 
     def start_output(self, ip):
         ip.st.put("GenOut", "n", OUT, z3.IntVal(0))
+        ip.st.put("GenOut", "rq", OUT, z3.IntVal(0))
         ip.st.assume(OUT > 0)
 
     def loop_spec(self, qualname, ordinal):
@@ -168,11 +212,17 @@ class IterUnit(FunctionUnit):
 
     def before_suspend(self, ip, what, payload):
         self.before = H(ip.st, ip.st.snapshot())
+        if getattr(self, "_skip_count", False):
+            self._skip_count = False
+        elif what in CKPT_KINDS:
+            self.ckpts = getattr(self, "ckpts", 0) + 1
+            _bump_rq(ip)
+            self.before = H(ip.st, ip.st.snapshot())
 
     def after_resume(self, ip, what, payload):
         # A-private-iterator: the source, the output record and the local state are this generator's own
         h, b = H(ip.st), self.before
-        for key in [(SRC.cls, "lo"), (SRC.cls, "hi"), (SRC.cls, "data"), ("GenOut", "out"), ("GenOut", "n"), ("GenOut", "pos"), ("GenOut", "rank"), ("GenOut", "last"), ("GenOut", "short")]:
+        for key in [(SRC.cls, "lo"), (SRC.cls, "hi"), (SRC.cls, "data"), ("GenOut", "out"), ("GenOut", "n"), ("GenOut", "pos"), ("GenOut", "rank"), ("GenOut", "last"), ("GenOut", "short"), ("GenOut", "rq")]:
             ip.st.assume(h.arr(*key) == b.arr(*key))
         ip.st.assume(h.arr("$", "alloc") == b.arr("$", "alloc"))
 
@@ -193,7 +243,13 @@ def reduce_loop_inv(ip, env):
     value = ip.term(_loc(env, "value"), OBJ)
     return [
         ("value_is_the_fold_of_the_elements_consumed_so_far", z3.And(value == ACC(i - u.off), i >= u.off, k <= u.hi0, src_unchanged(u, h))),
+        ("function_called_only_after_the_callback_was_awaited", z3.Implies(_fc(ip, env), i > u.off)),
     ]
+
+
+def _fc(ip, env):
+    fc = ip.truth(_loc(env, "function_called"))
+    return z3.BoolVal(fc) if isinstance(fc, bool) else fc
 
 
 def reduce_after_havoc(ip, env):
@@ -221,6 +277,16 @@ class ReduceUnit(IterUnit):
         args = [self.binary_callback(), self.src] + ([self.init] if self.has_init else [])
         return args, {}
 
+    def yielded_nothing(self, ip, ret):
+        return None  # not a generator: its own clause below
+
+    def after_exit(self, ip, pre, exc, ret):
+        super().after_exit(ip, pre, exc, ret)
+        if exc is None:
+            # reduce() iterates a synchronous iterable directly (no adaptor): it is a checkpoint through its callback, or - when
+            # the callback is never awaited (no element to fold) - through a checkpoint of its own
+            ip.ctx.oblige("reduce/c08:returns_without_a_checkpoint_of_its_own_only_if_the_callback_was_awaited", z3.Or(z3.BoolVal(getattr(self, "ckpts", 0) >= 1), self.n - self.off >= 1), "post")
+
     loops = {}
 
     def loop_spec(self, qualname, ordinal):
@@ -245,6 +311,7 @@ class ReduceAsyncUnit(ReduceUnit):
 
 class GenUnit(IterUnit):
     modpath = IT
+    is_generator = True
 
     def gen_entry(self, ip):
         self.start_output(ip)
@@ -504,14 +571,14 @@ def all_out_are(h, v):
 def repeat_forever_inv(ip, env):
     u = ip.ctx.unit
     h = H(ip.st)
-    return [("every_value_yielded_so_far_is_the_element", z3.And(out_n(h) >= 0, all_out_are(h, u.element.t)))]
+    return [("every_value_yielded_so_far_is_the_element", z3.And(out_n(h) >= 0, all_out_are(h, u.element.t))), ("c08.what_was_consumed_or_yielded_so_far_is_covered_by_requests_and_checkpoints", rq(h) >= out_n(h))]
 
 
 def repeat_counted_inv(ip, env):
     u = ip.ctx.unit
     h = H(ip.st)
     rem = ip.term(_loc(env, "remaining"), INT)
-    return [("the_element_was_yielded_times_minus_remaining_times", z3.And(rem >= 0, rem <= u.times.t, out_n(h) == u.times.t - rem, all_out_are(h, u.element.t)))]
+    return [("the_element_was_yielded_times_minus_remaining_times", z3.And(rem >= 0, rem <= u.times.t, out_n(h) == u.times.t - rem, all_out_are(h, u.element.t))), ("c08.what_was_consumed_or_yielded_so_far_is_covered_by_requests_and_checkpoints", rq(h) >= out_n(h))]
 
 
 class RepeatUnit(GenUnit):
@@ -552,7 +619,7 @@ def count_inv(ip, env):
     h = H(ip.st)
     n = ip.term(_loc(env, "n"), INT)
     j = z3.Int(ip.st.uniq("j"))
-    return [("the_jth_value_yielded_is_start_plus_j_times_step_and_n_is_the_next_one", z3.And(out_n(h) >= 0, n == u.start.t + out_n(h) * u.step.t, forall([j], z3.Implies(z3.And(0 <= j, j < out_n(h)), out_at(h, j) == u.start.t + j * u.step.t), patterns=[out_at(h, j)])))]
+    return [("the_jth_value_yielded_is_start_plus_j_times_step_and_n_is_the_next_one", z3.And(out_n(h) >= 0, n == u.start.t + out_n(h) * u.step.t, forall([j], z3.Implies(z3.And(0 <= j, j < out_n(h)), out_at(h, j) == u.start.t + j * u.step.t), patterns=[out_at(h, j)]))), ("c08.what_was_consumed_or_yielded_so_far_is_covered_by_requests_and_checkpoints", rq(h) >= out_n(h))]
 
 
 class CountUnit(GenUnit):
@@ -620,7 +687,7 @@ def islice_inv(ip, env):
     index = ip.term(_loc(env, "index"), INT)
     ey = ip.truth(_loc(env, "element_yielded"))
     ey = z3.BoolVal(ey) if isinstance(ey, bool) else ey
-    return [("index_counts_the_elements_consumed_and_exactly_the_selected_ones_among_them_were_yielded", z3.And(index == i, i >= 0, i <= u.n, u.b is None or i <= u.b, src_unchanged(u, h), ey == (out_n(h) > 0), selection(u, h, i)))]
+    return [("index_counts_the_elements_consumed_and_exactly_the_selected_ones_among_them_were_yielded", z3.And(index == i, i >= 0, i <= u.n, u.b is None or i <= u.b, src_unchanged(u, h), ey == (out_n(h) > 0), selection(u, h, i))), ("c08.what_was_consumed_or_yielded_so_far_is_covered_by_requests_and_checkpoints", rq(h) >= i)]
 
 
 MAXSIZE = 2**63 - 1
@@ -699,7 +766,7 @@ def compress_inv(ip, env):
     ey = ip.truth(_loc(env, "element_yielded"))
     ey = z3.BoolVal(ey) if isinstance(ey, bool) else ey
     sd = h.dq(SRC.cls, u.sel.t)
-    return [("data_and_selectors_advance_together_and_exactly_the_selected_data_were_yielded", z3.And(i == si, i >= 0, i <= u.n, i <= u.shi0 - u.slo0, src_unchanged(u, h), sd.hi == u.shi0, sd.data == u.sdata0, ey == (out_n(h) > 0), selection(u, h, i)))]
+    return [("data_and_selectors_advance_together_and_exactly_the_selected_data_were_yielded", z3.And(i == si, i >= 0, i <= u.n, i <= u.shi0 - u.slo0, src_unchanged(u, h), sd.hi == u.shi0, sd.data == u.sdata0, ey == (out_n(h) > 0), selection(u, h, i))), ("c08.what_was_consumed_or_yielded_so_far_is_covered_by_requests_and_checkpoints", rq(h) >= i)]
 
 
 class CompressUnit(SelectionUnit):
@@ -1222,23 +1289,27 @@ class AdaptorNextUnit(MethodUnit):
     StopAsyncIteration exactly when it is exhausted, and a cancellation (possible only at the first checkpoint) does
     not consume an element."""
 
-    props = ("C19",)
+    props = ("C19", "C08")
     spec = ClassSpec("_IterableAsyncIterator")
     method = "__anext__"
     contract = None
     trusted = ("E1", "A-private-iterator")
 
     def props_of(self, name):
-        return {"C19"}
+        return {"C08"} if "/c08:" in name else {"C19"}
 
     def __init__(self):
         super().__init__()
         unit = self
         self.globals = {
             "next": Builtin("next", lambda ip, it: unit.take(ip, it)),
-            "checkpoint_if_cancelled": Builtin("checkpoint_if_cancelled", lambda ip: AwaitableVal("checkpoint")),
+            # precise: suspends (and raises) only when the caller's scope is effectively cancelled
+            "checkpoint_if_cancelled": Builtin("checkpoint_if_cancelled", lambda ip: AwaitableVal("checkpoint_if_cancelled")),
             "cancel_shielded_checkpoint": Builtin("cancel_shielded_checkpoint", lambda ip: AwaitableVal("cancel_shielded_checkpoint")),
         }
+
+    def eff_cancelled(self, ip):
+        return z3.Bool("eff_cancelled_at_entry")
 
     def take(self, ip, it):
         st, cn = ip.st, SRC.cls
@@ -1272,6 +1343,8 @@ class AdaptorNextUnit(MethodUnit):
         post = H(ip.st)
         nm = "_IterableAsyncIterator.__anext__"
         s = a.self
+        # C08: every request for an element of a synchronous iterable passes a suspension point - on every exit
+        ip.ctx.oblige(f"{nm}/c08:every_call_passes_a_suspension_point_whether_it_returns_ends_or_is_cancelled", z3.BoolVal(ip.ctx.flags["suspended"] >= 1), "post")
         it = pre.f("_IterableAsyncIterator", "iterator", s)
         d0, d1 = pre.dq(SRC.cls, it), post.dq(SRC.cls, it)
         same = z3.And(post.f("_IterableAsyncIterator", "iterator", s) == it, d1.hi == d0.hi, d1.data == d0.data)
@@ -1293,6 +1366,7 @@ UNITS += [AdaptorNextUnit]
 
 
 class IterateUnit(IterUnit):
+    c08_clauses = False  # not a traversal
     """_iterate: an async iterator is handed through unchanged, an async iterable is asked for its iterator, anything else
     is wrapped into a fresh adaptor over iter(iterable) -- nothing is consumed."""
 
@@ -1458,7 +1532,7 @@ def batched_outer_inv(ip, env):
     u = ip.ctx.unit
     h = H(ip.st)
     c = h.dq(SRC.cls, u.src.t).lo - u.lo0
-    return [("everything_consumed_so_far_has_been_yielded_in_full_batches", z3.And(u.nb.t >= 1, c >= 0, c <= u.n, last_pos(h) == c, z3.Not(h.f("GenOut", "short", OUT)), out_n(h) >= 0, src_unchanged(u, h)))]
+    return [("everything_consumed_so_far_has_been_yielded_in_full_batches", z3.And(u.nb.t >= 1, c >= 0, c <= u.n, last_pos(h) == c, z3.Not(h.f("GenOut", "short", OUT)), out_n(h) >= 0, src_unchanged(u, h))), ("c08.what_was_consumed_or_yielded_so_far_is_covered_by_requests_and_checkpoints", rq(h) >= c)]
 
 
 def batched_inner_inv(ip, env):
@@ -1467,7 +1541,7 @@ def batched_inner_inv(ip, env):
     c = h.dq(SRC.cls, u.src.t).lo - u.lo0
     k = ip.ctx.loop_k
     batch = ip.term(_loc(env, "batch"), SAVED)
-    return [("the_batch_holds_the_inputs_consumed_since_the_previous_batch_ended", z3.And(u.nb.t >= 1, 0 <= k, k <= u.nb.t, c == last_pos(h) + k, c <= u.n, last_pos(h) >= 0, z3.Not(h.f("GenOut", "short", OUT)), out_n(h) >= 0, batch_is_slice(u, h, batch, last_pos(h), k), src_unchanged(u, h)))]
+    return [("the_batch_holds_the_inputs_consumed_since_the_previous_batch_ended", z3.And(u.nb.t >= 1, 0 <= k, k <= u.nb.t, c == last_pos(h) + k, c <= u.n, last_pos(h) >= 0, z3.Not(h.f("GenOut", "short", OUT)), out_n(h) >= 0, batch_is_slice(u, h, batch, last_pos(h), k), src_unchanged(u, h))), ("c08.what_was_consumed_or_yielded_so_far_is_covered_by_requests_and_checkpoints", rq(h) >= c)]
 
 
 class BatchedUnit(GenUnit):
@@ -1696,6 +1770,14 @@ class DelegationUnit(GenUnit):
     def loop_spec(self, qualname, ordinal):
         return LoopSpec(relay_inv, modifies={("GenOut", "out"), ("GenOut", "n"), ("GenOut", "pos")}, local_types={})
 
+    def on_for_loop(self, ip, it):
+        # the stdlib iterator is a synchronous iterator whatever the input was: each request goes through the adaptor
+        # (_iterate wraps it: IterateUnit), which passes a suspension point on every path (AdaptorNextUnit)
+        if self.std is not None and isinstance(it, Sym) and it.t.eq(self.std.t):
+            self.ckpts = getattr(self, "ckpts", 0) + 1
+        else:
+            super().on_for_loop(ip, it)
+
     def want_r(self):
         return Sym(self.n, INT) if self.r_none else self.r
 
@@ -1857,6 +1939,7 @@ class Copies:
 
 
 class TeeFrontUnit(IterUnit):
+    c08_clauses = False  # not a traversal
     modpath = IT
     funcname = "tee"
     trusted = ("E1", "A-comprehension")
@@ -2055,7 +2138,7 @@ def chain_outer_inv(ip, env):
     la, lb = st.get("ChainGhost", "la", CG), st.get("ChainGhost", "lb", CG)
     ey = ip.truth(_loc(env, "element_yielded"))
     ey = z3.BoolVal(ey) if isinstance(ey, bool) else ey
-    return [("everything_before_the_current_inner_source_has_been_yielded", z3.And(0 <= a, ip.ctx.loop_k <= u.ohi, la >= -1, ey == (la >= 0), u.between(st, la, lb, a), u.sources_unchanged(h)))]
+    return [("everything_before_the_current_inner_source_has_been_yielded", z3.And(0 <= a, ip.ctx.loop_k <= u.ohi, la >= -1, ey == (la >= 0), out_n(h) >= 0, (out_n(h) > 0) == (la >= 0), u.between(st, la, lb, a), u.sources_unchanged(h)))]
 
 
 def chain_inner_inv(ip, env):
@@ -2068,7 +2151,7 @@ def chain_inner_inv(ip, env):
     la, lb = st.get("ChainGhost", "la", CG), st.get("ChainGhost", "lb", CG)
     ey = ip.truth(_loc(env, "element_yielded"))
     ey = z3.BoolVal(ey) if isinstance(ey, bool) else ey
-    return [("the_current_inner_source_has_been_yielded_up_to_the_current_element", z3.And(0 <= a, a < u.m(), r == u.inner(a), 0 <= b, b <= u.length(a), la >= -1, ey == (la >= 0), z3.If(b == 0, u.between(st, la, lb, a), z3.And(la == a, lb == b - 1)), u.sources_unchanged(h)))]
+    return [("the_current_inner_source_has_been_yielded_up_to_the_current_element", z3.And(0 <= a, a < u.m(), r == u.inner(a), 0 <= b, b <= u.length(a), la >= -1, ey == (la >= 0), out_n(h) >= 0, (out_n(h) > 0) == (la >= 0), z3.If(b == 0, u.between(st, la, lb, a), z3.And(la == a, lb == b - 1)), u.sources_unchanged(h)))]
 
 
 UNITS += [ChainUnit]
@@ -2188,6 +2271,7 @@ UNITS += [ProductUnit]
 
 
 class ChainCallUnit(IterUnit):
+    c08_clauses = False  # not a traversal
     """chain(*iterables) is from_iterable(<the tuple of its arguments, in order>) - nothing else"""
 
     modpath = IT
@@ -2261,7 +2345,7 @@ def zip_inv(ip, env):
         terms += [a_i == (r <= ln), d.lo - lo0 == z3.If(r <= ln, r, ln), d.hi == hi0, d.data == u.datas[i]]
         count = count + z3.If(a_i, 1, 0)
     terms += [num_active == count, num_active >= 1]
-    return [("after_r_rounds_every_input_has_given_min_r_len_elements_and_is_active_iff_it_may_have_more", z3.And(*terms))]
+    return [("after_r_rounds_every_input_has_given_min_r_len_elements_and_is_active_iff_it_may_have_more", z3.And(*terms)), ("c08.what_was_consumed_or_yielded_so_far_is_covered_by_requests_and_checkpoints", rq(h) >= r)]
 
 
 def zip_after_havoc(ip, env):
